@@ -200,6 +200,9 @@ def small_ops(v, B):
     ops = ["e0"] + ["e%d" % k for k in range(2, 17)] + ["f", "mp5"]
     # the event built in another order of the setters (payload in two parts first, then MCV, then clock)
     ops += ["e3r", "e16:8+8r"]
+    # payloads one and two bytes beyond what an event holds, in one piece and in pieces: the library refuses them (an accepted one
+    # would land as another event than the one handed over)
+    ops += ["e17:17", "e17:8+9", "e17:15+2", "e17:4+4+9", "e18:9+9", "e18:16+2"]
     ops += ["j%d" % n for n in range(0, B - 16)]       # every jumbo size the API accepts (+ the first refused one)
     return ops
 
